@@ -131,7 +131,10 @@ static int g_run_dir_serial = 0;
 std::string RunDir()
 {
     if (g_run_dir.empty()) {
-        g_run_dir = g_root_dir + "/r" + std::to_string(getpid()) + "_" + std::to_string(++g_run_dir_serial);
+        // fixed-width names: path lengths (hence allocation sizes) must not depend on the pid
+        char name[64];
+        snprintf(name, sizeof name, "/r%08d_%04d", (int)getpid(), ++g_run_dir_serial);
+        g_run_dir = g_root_dir + name;
         mkdir(g_root_dir.c_str(), 0700);
         mkdir(g_run_dir.c_str(), 0700);
     }
@@ -319,25 +322,109 @@ struct Child {
 
 static uint64_t RunSeed(uint64_t base, const std::string& prop, long i) { return mix64(mix64(base, strhash(prop)), (uint64_t)i + 1); }
 
+static std::string g_self;       // path of this executable
+static int g_plan_serial = 0;
+
+/** Children are fresh processes (fork + exec of this binary with ASLR off), not forks of the evolving parent:
+ *  their heap layout, hence every pointer value (bitcoin breaks ties between equal-work tips loaded from disk by
+ *  CBlockIndex address), is then a function of the work they are given and not of how much the parent has
+ *  allocated so far. The work description travels over a pipe on fd 3, results come back on fd 4. */
 static Child SpawnChild(const Engine& e, Tier tier, std::vector<WorkItem> items)
 {
     Child c;
-    int p[2];
-    if (pipe(p) != 0) { perror("pipe"); exit(2); }
-    c.errfile = g_root_dir + "/stderr." + std::to_string(items[0].idx) + "." + std::to_string(rand());
+    int p[2], w[2];
+    if (pipe(p) != 0 || pipe(w) != 0) { perror("pipe"); exit(2); }
+    c.errfile = g_root_dir + "/stderr." + std::to_string(items[0].idx) + "." + std::to_string(++g_plan_serial);
+    // serialise the work: one line per item "idx seed want_sample verbose planfile|-"
+    std::string work;
+    for (auto& it : items) {
+        std::string planfile = "-";
+        if (it.plan) {
+            planfile = g_root_dir + "/plan." + std::to_string(++g_plan_serial) + ".json";
+            std::ofstream f(planfile);
+            f << PlanToJson(*it.plan) << "\n";
+        }
+        work += std::to_string(it.idx) + " " + std::to_string(it.plan ? it.plan->seed : it.seed) + " " + (it.want_sample ? "1" : "0") + " " + (it.verbose ? "1" : "0") + " " + planfile + "\n";
+    }
     fflush(stdout);
     fflush(stderr);
     pid_t pid = fork();
     if (pid < 0) { perror("fork"); exit(2); }
     if (pid == 0) {
         close(p[0]);
-        g_out_fd = p[1];
+        close(w[1]);
+        if (w[0] != 3) { dup2(w[0], 3); close(w[0]); }
+        if (p[1] != 4) { dup2(p[1], 4); close(p[1]); }
+        setenv("VERIFSIM_ROOT", g_root_dir.c_str(), 1);
+        const char* tier_s = tier == Tier::QUICK ? "quick" : "thorough";
+        execl(g_self.c_str(), g_self.c_str(), "child", e.prop.c_str(), tier_s, c.errfile.c_str(), (char*)nullptr);
+        _exit(72);
+    }
+    close(p[1]);
+    close(w[0]);
+    {
+        size_t off = 0;
+        while (off < work.size()) {
+            ssize_t n = write(w[1], work.data() + off, work.size() - off);
+            if (n <= 0) break;
+            off += n;
+        }
+        close(w[1]);
+    }
+    c.pid = pid;
+    c.fd = p[0];
+    c.items = std::move(items);
+    c.last = std::chrono::steady_clock::now();
+    return c;
+}
+
+/** Body of a child process: read the work from fd 3, run it, write result lines to fd 4. */
+static int ChildMain(const std::string& prop, Tier tier, const std::string& errfile)
+{
+    const Engine* ep = FindEngine(prop);
+    if (!ep) return 73;
+    const Engine& e = *ep;
+    {
+        g_out_fd = 4;
         if (!getenv("VERIF_STDERR")) {
-            int efd = open(c.errfile.c_str(), O_WRONLY | O_CREAT | O_TRUNC, 0600);
+            int efd = open(errfile.c_str(), O_WRONLY | O_CREAT | O_TRUNC, 0600);
             if (efd >= 0) { dup2(efd, 2); close(efd); }
         }
         for (int s : {SIGABRT, SIGSEGV, SIGBUS, SIGFPE, SIGILL}) signal(s, CrashHandler);
-        for (auto& it : items) {
+        // read the whole work description into static storage (no heap use that depends on the batch)
+        static char buf[1 << 20];
+        size_t len = 0;
+        for (;;) {
+            ssize_t n = read(3, buf + len, sizeof(buf) - 1 - len);
+            if (n <= 0) break;
+            len += n;
+        }
+        buf[len] = 0;
+        close(3);
+        struct Item { long idx; uint64_t seed; int want_sample; int verbose; char planfile[256]; };
+        static Item parsed[8192];
+        size_t nitems = 0;
+        for (char* line = buf; *line && nitems < 8192;) {
+            char* nl = strchr(line, '\n');
+            if (nl) *nl = 0;
+            Item& it = parsed[nitems];
+            unsigned long long seed = 0;
+            if (sscanf(line, "%ld %llu %d %d %255s", &it.idx, &seed, &it.want_sample, &it.verbose, it.planfile) == 5) { it.seed = seed; ++nitems; }
+            if (!nl) break;
+            line = nl + 1;
+        }
+        if (e.init) e.init();
+        for (size_t ii = 0; ii < nitems; ++ii) {
+            struct { long idx; uint64_t seed; const Plan* plan; bool want_sample; bool verbose; } it{parsed[ii].idx, parsed[ii].seed, nullptr, parsed[ii].want_sample != 0, parsed[ii].verbose != 0};
+            Plan explicit_plan;
+            if (strcmp(parsed[ii].planfile, "-") != 0) {
+                std::ifstream f(parsed[ii].planfile);
+                std::stringstream ss;
+                ss << f.rdbuf();
+                std::string err;
+                if (!PlanFromJson(ss.str(), explicit_plan, err)) _exit(74);
+                it.plan = &explicit_plan;
+            }
             g_cur_idx = it.idx;
             Plan gen;
             const Plan* plan = it.plan;
@@ -347,8 +434,15 @@ static Child SpawnChild(const Engine& e, Tier tier, std::vector<WorkItem> items)
                 gen.seed = it.seed;
                 plan = &gen;
             }
-            RunOut r = RunOne(e, *plan, tier, it.verbose, it.want_sample);
+            const char* dbg = getenv("VERIF_DET_DEBUG");
+            RunOut r = RunOne(e, *plan, tier, it.verbose || dbg, it.want_sample);
             r.idx = it.idx;
+            if (dbg) {
+                // debugging aid for nondeterminism: one trace file per execution, to be diffed by hand
+                std::ofstream f(std::string(dbg) + "/" + std::to_string(plan->seed) + "." + std::to_string(getpid()) + ".log");
+                for (auto& l : r.log) f << l << "\n";
+                r.log.clear();
+            }
             std::string line = OutToLine(r);
             size_t off = 0;
             while (off < line.size()) {
@@ -360,12 +454,7 @@ static Child SpawnChild(const Engine& e, Tier tier, std::vector<WorkItem> items)
         fflush(nullptr);
         _exit(0);
     }
-    close(p[1]);
-    c.pid = pid;
-    c.fd = p[0];
-    c.items = std::move(items);
-    c.last = std::chrono::steady_clock::now();
-    return c;
+    return 0;
 }
 
 static std::string Tail(const std::string& file, size_t n = 600)
@@ -630,7 +719,6 @@ static std::vector<Finding> LoadFindings(const std::string& path)
 
 // ---------------------------------------------------------------------------------------------
 
-static std::string g_self;       // path of this executable
 static std::string g_verif_dir;  // /verif
 
 static int CmdReplay(const std::string& file, bool quiet)
@@ -644,7 +732,6 @@ static int CmdReplay(const std::string& file, bool quiet)
     if (!PlanFromJson(ss.str(), plan, err)) { fprintf(stderr, "bad replay file: %s\n", err.c_str()); return 2; }
     const Engine* e = FindEngine(plan.prop);
     if (!e) { fprintf(stderr, "unknown property %s\n", plan.prop.c_str()); return 2; }
-    if (e->init) e->init();
     UniValue v;
     v.read(ss.str());
     Tier tier = (v.exists("tier") && v["tier"].get_str() == "thorough") ? Tier::THOROUGH : Tier::QUICK;
@@ -669,7 +756,6 @@ static int CmdRun(const std::string& prop, Tier tier, uint64_t base_seed, int jo
     const Engine* ep = FindEngine(prop);
     if (!ep) { fprintf(stderr, "unknown property %s\n", prop.c_str()); return 2; }
     const Engine& e = *ep;
-    if (e.init) e.init();
     auto t0 = std::chrono::steady_clock::now();
     long runs = tier == Tier::QUICK ? e.quick_runs : e.thorough_runs;
     if (runs_override > 0) runs = runs_override;
@@ -894,7 +980,18 @@ int main(int argc, char** argv)
         g_self = n > 0 ? std::string(buf, n) : argv[0];
     }
     g_verif_dir = getenv("VERIF_DIR") ? getenv("VERIF_DIR") : "/verif";
-    g_root_dir = "/dev/shm/verifsim." + std::to_string(getpid());
+    if (argc >= 5 && std::string(argv[1]) == "child") {
+        // child process of a batch: scratch root is the parent's, which also removes it
+        g_root_dir = getenv("VERIFSIM_ROOT") ? getenv("VERIFSIM_ROOT") : "/dev/shm/verifsim.orphan";
+        InitBitcoinGlobals();
+        int rc = ChildMain(argv[2], std::string(argv[3]) == "thorough" ? Tier::THOROUGH : Tier::QUICK, argv[4]);
+        _exit(rc);
+    }
+    {
+        char name[64];
+        snprintf(name, sizeof name, "/dev/shm/verifsim.%08d", (int)getpid());
+        g_root_dir = name;
+    }
     mkdir(g_root_dir.c_str(), 0700);
     struct Cleanup {
         ~Cleanup() { RmRf(g_root_dir); }
@@ -927,6 +1024,20 @@ int main(int argc, char** argv)
         int rc = CmdReplay(args[1], flag("--quiet"));
         RmRf(g_root_dir);
         return rc;
+    }
+    if (cmd == "plan" && args.size() >= 2) {
+        // print the plan of run index --index i of a batch (to replay/inspect a single run by hand)
+        const Engine* e = FindEngine(args[1]);
+        if (!e) return 2;
+        uint64_t seed = std::stoull(opt("--seed", getenv("VERIF_SEED") ? getenv("VERIF_SEED") : "1"));
+        long idx = std::stol(opt("--index", "0"));
+        Tier tier = opt("--tier", "quick") == "thorough" ? Tier::THOROUGH : Tier::QUICK;
+        uint64_t rs = flag("--raw-seed") ? seed : RunSeed(seed, e->prop, idx);
+        Plan p = e->gen(rs, tier);
+        p.prop = e->prop;
+        p.seed = rs;
+        printf("%s\n", PlanToJson(p, std::string("\"tier\":\"") + (tier == Tier::QUICK ? "quick" : "thorough") + "\"").c_str());
+        return 0;
     }
     if ((cmd == "run" || cmd == "selftest-determinism") && args.size() >= 2) {
         std::string tier_s = opt("--tier", getenv("VERIF_TIER") ? getenv("VERIF_TIER") : "quick");
